@@ -49,11 +49,11 @@ var statusCmd = &cobra.Command{
 		for _, entry := range client.Idx.Entries {
 			filePath := string(entry.Path)
 			info, err := os.Stat(filePath)
-			if os.IsNotExist(err) {
+			if err != nil { // missing, or its parent is now a regular file
 				deletedFiles = append(deletedFiles, filePath)
 				continue
 			}
-			if err != nil || info.IsDir() {
+			if info.IsDir() {
 				continue
 			}
 			// check if the file is modified
